@@ -377,7 +377,7 @@ def rule_slice(S):
                             src.get('cn') == 'data':
                         x = f.strip(f.ch(tgt)[0], casts=True)
                         if x is not None and (x.get('ty') or '') in ('unsigned long',) or \
-                                (x is not None and x['k'] == 'MemberExpr' and x.get('name') == 'key_slice_'):
+                                (x is not None and x['k'] == 'MemberExpr' and x.get('name') == R.field_of(S.facts(), Y + 'base_node::key_tuple', 'unsigned long', 'slice')):
                             try:
                                 cnt = ev.ev(a[2])
                             except AnalysisBroken:
@@ -541,7 +541,7 @@ def rule_sent(S):
     for n in ctor[0].all_nodes():
         if n['k'] == 'BinaryOperator' and n.get('op') == '=':
             l = ctor[0].strip(ctor[0].ch(n)[0], casts=True)
-            if l is not None and l['k'] == 'MemberExpr' and l.get('name') == 'key_length_':
+            if l is not None and l['k'] == 'MemberExpr' and l.get('name') == R.field_of(facts, Y + 'base_node::key_tuple', 'unsigned char', 'length'):
                 c = cv_through(ctor[0], ctor[0].ch(n)[1])
                 if c is not None:
                     lens.append(c)
